@@ -1,5 +1,5 @@
 (* C06 Route parser: total, accepts exactly the grammar, canonical form is a fixpoint. *)
-Require Import Base Route Lexer LexerProofs LexSteps Parser Grammar Unparse UnparseProofs ParseSound SourceFacts.
+Require Import Base Route Lexer LexerProofs LexSteps Parser Grammar Unparse UnparseProofs ParseSound GrammarProofs SourceFacts.
 
 (* --- tie to the source, re-checked on every run against the regenerated gen/SourceFacts.v --- *)
 (* the lexer rule table extracted from internal/route/parser.go IS the table the model interprets *)
@@ -66,9 +66,16 @@ Qed.
 Theorem C06_lexer_runs_are_chains : forall tbl s ts, lex tbl s = Some ts -> LexChain.chain tbl [0] ts.
 Proof. exact LexChain.lex_chain. Qed.
 
-(* Grammar.bnf_parse is an independent byte-level reading of the BNF used as a second executable oracle
-   on the implementation's answers; its agreement with [parse] is evaluated, not proved (the theorems
-   above do not depend on it). *)
+(* Grammar.bnf_parse is the byte-level reading of the BNF (no lexer, no tokens: longest <ident> by [span], blanks
+   skipped after ':' and ',') that judges the implementation's accept/reject and AST on every generated
+   string.  It accepts exactly the derivations too, so it equals [parse] on every byte string. *)
+Theorem C06_bnf_exact : forall s r, bnf_parse s = Some r <-> (wf_route r /\ exists sr, erase sr = r /\ unparse sr = s).
+Proof.
+  intros s r. split; [apply bnf_sound|]. intros (W & sr & <- & <-). apply bnf_complete. exact W.
+Qed.
+
+Theorem C06_parse_is_bnf : forall s, parse s = bnf_parse s.
+Proof. exact parse_is_bnf. Qed.
 
 Example C06_example :
   let s := [47;123;97;58;32;32;47;120;47;44;98;58;32;42;42;125;47;63;99]%N in   (* "/{a:  /x/,b: **}/?c" *)
@@ -87,3 +94,4 @@ Redirect "assum/C06.4" Print Assumptions C06_accepts_every_derivation.
 Redirect "assum/C06.5" Print Assumptions C06_canonical_fixpoint.
 Redirect "assum/C06.6" Print Assumptions C06_exact.
 Redirect "assum/C06.7" Print Assumptions C06_canonical.
+Redirect "assum/C06.8" Print Assumptions C06_parse_is_bnf.
